@@ -96,7 +96,7 @@ func shapeConstChains(r *rng.R, plain bool) c10Shape {
 // shapeServiceChain: service inheritance through k modules, each including only
 // the next; the root includes several of them as siblings.
 func shapeServiceChain(r *rng.R, plain bool) c10Shape {
-	k := r.Pick(3, 3, 3, 4, 5)
+	k := r.Pick(2, 2, 3, 3, 4, 5) // (2: one service and its parent, both included by the root — which of the two is linked first is a coin toss)
 	if plain {
 		k = 3 // the smallest chain, nothing but includes in the root: the first round of every run
 	}
@@ -121,8 +121,9 @@ func shapeServiceChain(r *rng.R, plain bool) c10Shape {
 	}
 	// the root includes link0 and some of the others (always link1), in drawn order
 	incs := []string{"link0", "link1"}
+	all := !plain && r.Chance(1, 2) // every module of the chain is also an include of the root: which one is reached first, directly or as somebody's parent, is then a matter of order only
 	for i := 2; i < k; i++ {
-		if !plain && r.Chance(1, 3) {
+		if all || (!plain && r.Chance(1, 3)) {
 			incs = append(incs, fmt.Sprintf("link%d", i))
 		}
 	}
@@ -231,7 +232,49 @@ func shapeUmbrella(r *rng.R, plain bool) c10Shape {
 	return c10Shape{"umbrella file over modules that need " + lib + " as a library and as a Thrift package", "shape: umbrella over modules sharing an import name", files, []string{lib + ".thrift", "plain.thrift", "catalog.thrift", "other.thrift", "root.thrift"}}
 }
 
-var c10ShapeGens = []func(*rng.R, bool) c10Shape{shapeConstChains, shapeServiceChain, shapeSameBaseName, shapeImportNames, shapeUmbrella}
+// shapeLongNames: helper names of a hundred to several hundred characters — containers nested 5 to 10
+// levels deep over structs with long names: whatever the generator does with a name that long
+// (cut it, number it, digest it) has to come out the same in every process.
+func shapeLongNames(r *rng.R, plain bool) c10Shape {
+	long := "Record" + strings.Repeat("OfAnotherKind", 1+r.Intn(8))
+	var sb strings.Builder
+	fmt.Fprintf(&sb, "struct %s {\n  1: optional string v\n}\n\nenum Colour { RED, GREEN }\n\n", long)
+	leaf := []string{long, "string", "binary", "i64", "double", "Colour", "bool"}
+	var deepest int
+	nest := func(depth int) string {
+		t := leaf[r.Intn(len(leaf))]
+		for d := 0; d < depth; d++ {
+			switch r.Intn(4) {
+			case 0:
+				t = "list<" + t + ">"
+			case 1:
+				t = "set<" + t + ">"
+			case 2:
+				t = "map<string, " + t + ">"
+			default:
+				t = "map<" + []string{"i32", "string", "Colour"}[r.Intn(3)] + ", " + t + ">"
+			}
+		}
+		return t
+	}
+	sb.WriteString("struct Holder {\n")
+	nf := 2 + r.Intn(4)
+	for i := 1; i <= nf; i++ {
+		depth := 5 + r.Intn(6)
+		if depth > deepest {
+			deepest = depth
+		}
+		fmt.Fprintf(&sb, "  %d: optional %s f%d\n", i, nest(depth), i)
+	}
+	sb.WriteString("}\n")
+	if !plain {
+		fmt.Fprintf(&sb, "\nservice Deep {\n  %s get(1: %s a)\n}\n", nest(6+r.Intn(3)), nest(5+r.Intn(3)))
+	}
+	files := map[string]string{"root.thrift": sb.String()}
+	return c10Shape{fmt.Sprintf("struct name of %d characters, containers up to %d levels", len(long), deepest), "shape: helper names hundreds of characters long", files, []string{"root.thrift"}}
+}
+
+var c10ShapeGens = []func(*rng.R, bool) c10Shape{shapeConstChains, shapeServiceChain, shapeSameBaseName, shapeImportNames, shapeUmbrella, shapeLongNames}
 
 // c10ShapeSizes: order dependences of the generator act on Go's natural map
 // order only (the link-order hook steers the compiler, not the generator), and
